@@ -14,7 +14,10 @@ package par
 //@   let responsible = implements(c.Config, fosite.PushedAuthorizeRequestConfigProvider) && implements(c.Storage, fosite.PARStorage) && old(ar.GetResponseTypes()).HasOneOf("token", "code", "id_token")
 //@   let prefix = cast(c.Config, fosite.PushedAuthorizeRequestConfigProvider).GetPushedAuthorizeRequestURIPrefix(ctx)
 //@   requires c != nil && ar != nil && resp != nil && ar.GetRedirectURI() != nil && ar.GetRequestForm() != nil
-//@   modifies par_exists, par_req, par_client, par_exp, stored, faults
+//@   modifies par_ever, par_exists, par_req, par_client, par_exp, stored, faults
+// cryptographic assumption (A12): the request URI generated from 32 random bytes has never been stored before
+//@   assume err == nil && responsible ==> !old(par_ever)[resp.GetRequestURI()]
+//@   ensures [C17.push-touches-only-its-uri] (forall u string :: old(par_ever[u]) ==> par_ever[u]) && (forall u string :: par_exists[u] ==> old(par_exists[u]) || (err == nil && responsible && u == resp.GetRequestURI()))
 //@   ensures [C17.push-stores-request] err == nil && responsible ==> par_exists[resp.GetRequestURI()] && par_req[resp.GetRequestURI()] == ar && par_client[resp.GetRequestURI()] == ar.GetClient().GetID()
 //@   ensures [C17.push-validates-as-authorize] err == nil && responsible ==> (forall j int :: 0 <= j && j < len(ar.GetRequestedScopes()) ==> call(c.Config.GetScopeStrategy(ctx), ar.GetClient().GetScopes(), ar.GetRequestedScopes()[j])) && call(c.Config.GetAudienceStrategy(ctx), ar.GetClient().GetAudience(), ar.GetRequestedAudience()) == nil
 //@   ensures [C11.http-only-local] err == nil && responsible && c.Config.GetRedirectSecureChecker(ctx) == nil ==> fosite.IsRedirectURISecure(ctx, ar.GetRedirectURI())
@@ -24,3 +27,15 @@ package par
 //@   ensures [C17.refusal-stores-nothing] err != nil ==> par_exists == old(par_exists)
 //@   invariant loop#1 [C17.push-validates-as-authorize] $i <= len(ar.GetRequestedScopes()) && (forall j int :: 0 <= j && j < $i ==> call(c.Config.GetScopeStrategy(ctx), client.GetScopes(), ar.GetRequestedScopes()[j]))
 //@   invariant loop#2 [C20.stored-form-whitelisted] $i <= 3 && (forall j int :: 0 <= j && j < $i && j < 2 ==> formget(ar.GetRequestForm(), j == 0 ? "client_secret" : "client_assertion") == "")
+
+// ---------------------------------------------------------------- history lemma (ghost driver in verif_history.go), see DESIGN 0.9
+//@ interface verifEnv.More
+//@ interface verifEnv.Request
+//@   ensures result != nil && result.GetRedirectURI() != nil && result.GetRequestForm() != nil
+//@ interface verifEnv.Response
+//@   ensures result != nil
+//@ func verifHistoryPARPush
+//@   requires env != nil && c != nil
+//@   modifies everything
+//@   invariant loop#1 [C17.used-request-uri-stays-used] old(par_ever[uri0] && !par_exists[uri0]) ==> par_ever[uri0] && !par_exists[uri0]
+//@   ensures [C17.used-request-uri-stays-used] old(par_ever[uri0] && !par_exists[uri0]) ==> par_ever[uri0] && !par_exists[uri0]
